@@ -934,6 +934,113 @@ func ruleSeal(c *Ctx, m *Model, r *E1) {
 	} else {
 		c.Undecide("C02.SEAL", "base.MintBatchCredits#guards", "-", "handler not found")
 	}
+	// (1b) every handler: a write that changes the TOTAL (tradable + retired + cancelled) of an existing
+	// batch's supply row lies behind batch.Open == true for the batch that row belongs to — whichever
+	// entry point reaches it (BridgeReceive mints through a nested call or a helper of its own)
+	for _, h := range r.Handlers {
+		if h.EP.Kind == "canary" {
+			continue
+		}
+		bad := ""
+		n := 0
+		for _, o := range h.Outs {
+			st := o.St
+			sums := map[*Event]Lin{}
+			unknown := map[*Event]string{}
+			var order []*Event
+			for _, d := range h.Deltas(o) {
+				if d.Table != "BatchSupply" || d.Ev == nil || d.Ev.OpKind == "insert" {
+					continue
+				}
+				if d.Col != "TradableAmount" && d.Col != "RetiredAmount" && d.Col != "CancelledAmount" {
+					continue
+				}
+				if _, seen := sums[d.Ev]; !seen {
+					sums[d.Ev] = linConst(0)
+					order = append(order, d.Ev)
+				}
+				if d.Bad != "" {
+					unknown[d.Ev] = d.Bad
+					continue
+				}
+				sums[d.Ev] = sums[d.Ev].Add(d.Delta)
+			}
+			for _, ev := range order {
+				if unknown[ev] == "" && reduce(sums[ev], st.eqs).IsZero() {
+					continue // the total is unchanged (a move between columns)
+				}
+				n++
+				bk := st.canon(ev.Row["BatchKey"])
+				// the fetched Batch rows whose key is that key (whatever name the key's equivalence class carries)
+				var names []string
+				for _, ob := range st.mem {
+					if ob.Table == nil || ob.Table.Name != "Batch" || ob.Kind != "row" {
+						continue
+					}
+					k := st.find(ob.Name + ".Key")
+					if v, ok := ob.F[".Key"]; ok {
+						k = st.canon(v)
+					} else if v, ok := ob.Preset["Key"]; ok {
+						k = st.canon(v)
+					}
+					if k == bk {
+						names = append(names, ob.Name)
+					}
+				}
+				sort.Strings(names)
+				if len(names) == 0 {
+					if bad == "" {
+						bad = "supply total changes for a batch whose Batch row is not fetched on the path (key " + bk + ")"
+					}
+					continue
+				}
+				guarded := false
+				for _, nm := range names {
+					if factBefore(st, "+Bool("+nm+".Open)", ev) {
+						guarded = true
+					}
+				}
+				if !guarded && bad == "" {
+					bad = "the supply total of an existing batch changes (Δ = " + sums[ev].String() + ") at " + p.Pos(ev.Pos.Pos()) + " without +Bool(" + names[0] + ".Open) established before it on path {" + outcomeLabel(h, o) + "}"
+				}
+			}
+		}
+		if n == 0 {
+			continue
+		}
+		if bad != "" {
+			c.Violate("C02.SEAL", h.Key+"#total-changes-only-while-open", p.Pos(h.Fn.Pos()), bad, nil)
+		} else {
+			c.Hold("C02.SEAL", h.Key+"#total-changes-only-while-open", p.Pos(h.Fn.Pos()), fmt.Sprintf("%d supply writes that change the total of an existing batch, each behind batch.Open == true of that batch", n), nil)
+		}
+	}
+	// (1c) the supply rows' previous content is known at every write (no lost update, also across loop iterations)
+	for _, h := range r.Handlers {
+		if h.EP.Kind == "canary" {
+			continue
+		}
+		bad := ""
+		n := 0
+		for _, o := range h.Outs {
+			for _, d := range h.Deltas(o) {
+				if d.Table != "BatchSupply" || d.Col == "*" {
+					continue
+				}
+				n++
+				if d.Bad != "" && bad == "" {
+					bad = d.Bad + " at " + p.Pos(d.Ev.Pos.Pos()) + " on path {" + outcomeLabel(h, o) + "}"
+				}
+			}
+		}
+		if n == 0 {
+			continue
+		}
+		if bad != "" {
+			c.Violate("C02.FRESH", h.Key+"#supply-basis", p.Pos(h.Fn.Pos()), bad, nil)
+		} else {
+			c.Hold("C02.FRESH", h.Key+"#supply-basis", p.Pos(h.Fn.Pos()), fmt.Sprintf("%d supply column writes, each based on content read (or written) in the same iteration", n), nil)
+		}
+	}
 	// (2) stores to Batch.Open / deletes of Batch anywhere
 	nUpd := 0
 	for _, h := range r.Handlers {
